@@ -11,7 +11,11 @@ HOSTILE_OBJS = ["N", "I0.5", "S" + vlib.hx("s"), "Li(I0.1,N)", "Q", "Z", "P(I0.5
                 # maps and slices that were never made (nil), as fields, map values, behind pointers and as the object itself
                 "R(%s=m,%s=o,%s=l)" % (vlib.hx("A"), vlib.hx("B"), vlib.hx("C")), "R(%s=o,%s=y,%s=m)" % (vlib.hx("A"), vlib.hx("B"), vlib.hx("C")),
                 "M(%s=m,%s=l,%s=o)" % (vlib.hx("A"), vlib.hx("B"), vlib.hx("C")), "P(R(%s=y,%s=m,%s=Q))" % (vlib.hx("A"), vlib.hx("B"), vlib.hx("C")),
-                "m", "o", "l", "R(%s=X(m),%s=X(l),%s=X(Q))" % (vlib.hx("A"), vlib.hx("B"), vlib.hx("C"))]
+                "m", "o", "l", "R(%s=X(m),%s=X(l),%s=X(Q))" % (vlib.hx("A"), vlib.hx("B"), vlib.hx("C")),
+                # slices whose members the engine cannot represent (nil, unsupported kinds, bytes), as fields and map values
+                "R(%s=Li(N,I0.1),%s=Lt(U8.1,U8.2),%s=Li(Z,Q,N))" % (vlib.hx("A"), vlib.hx("B"), vlib.hx("C")),
+                "M(%s=Li(N),%s=Li(R(%s=I0.1),N),%s=Lt(U16.7))" % (vlib.hx("A"), vlib.hx("B"), vlib.hx("F"), vlib.hx("C")),
+                "R(%s=Li(Li(N),N),%s=Lt(I8.1,I8.2),%s=Li(U8.200,I0.5))" % (vlib.hx("A"), vlib.hx("B"), vlib.hx("C"))]
 
 FAULTY = ["return 1 / 0;", "return 1 % 0;", "return 1.5 % 0;", "return [1][\"a\"];", "return \"a\" - 1;", "a = b = 3;", "y = x++;", "x += 1 + 2; return x;",
           "panic(\"boom\");", "panic();", "return nosuch(1);", "function f(a) { return a; } return f();", "return {[1]: 2};", "foreach x in 5 { }",
@@ -47,7 +51,8 @@ class C08(Prop):
             for src in ["return Field;", "return A;", "x = k; return B;", "return 1;", "foreach k, v in A { t(k); } return C;", "return B;", "return C;",
                         "return len(A) + len(B) + len(C);", "return [A[\"x\"], B[0], C[1]];", "if (A) { return 1; } if (B) { return 2; } return C ? 3 : 4;",
                         "return [type(A), type(B), type(C), string(A), keys(A)];", "h = {\"a\": A, \"b\": B}; foreach v in C { t(v); } return h;",
-                        "return (A == B) || (B in C) || !A;"]:
+                        "return (A == B) || (B in C) || !A;", "return A[0];", "return B[0];", "return C[0];", "x = A[0]; return x;", "return [A[0], B[1], C[2]][0];",
+                        "function f(a) { return a; } return f(A[0]);", "foreach v in A { return v; } return 1;", "foreach v in C { t(v); } return len(C);"]:
                 out.append(case(src, obj, "hostile-object"))
         n = 30000 if tier == "thorough" else 1500
         seeds = [gen.Gen(rng, max_depth=2).program(nstmts=rng.randint(1, 5), nfuncs=rng.randint(0, 2), depth=2) for _ in range(60)]
